@@ -138,6 +138,13 @@ def build(rng, scale=1):
         o1, o2 = R.choice([(">=", "<"), (">", "<="), (">=", "<="), (">", "<")])
         g.add("bool-range-lit", "r := %s %s %s && %s %s %s\n\treturn out(r)" % (a, o1, lo, a, o2, hi), PRE_INT)
         g.add("bool-range-lit-or", "r := %s < %s || %s > %s\n\treturn out(r)" % (a, lo, a, hi), PRE_INT)
+    # comparison-rooted expressions with nested negations / foldable ranges
+    for tn, pre, pure, impure in typed[:2]:
+        for _ in range(4 * scale):
+            a, b = R.choice(pure[:3]), R.choice(pure[:3])
+            op = R.choice(CMP)
+            g.add("bool-cmp-rooted-" + tn, "r := !(%s %s %s) == e.Fb()\n\treturn out(r)" % (a, op, b), pre)
+            g.add("bool-cmp-rooted-" + tn, "r := (%s %s %s) != !(%s %s %s)\n\treturn out(r)" % (a, op, b, b, op, a), pre)
     g.add("bool-dneg", "r := !!e.Fb()\n\treturn out(r)")
     g.add("bool-dneg", "b0 := e.I0 > 1\n\tr := !!b0 == !(!b0)\n\treturn out(r)")
     # ---- assignOp -----------------------------------------------------------------------
